@@ -105,6 +105,15 @@ def run(case: dict, lean: Lean) -> Outcome:
         if not all(_same(s1d[i], s2[i]) for i in base): failed.append(f"{hk} user {u}: permuting the candidates changes a score"); keys.add("?perm")
         if not all(_same(s1d[i], s3[i]) for i in sub): failed.append(f"{hk} user {u}: dropping other candidates changes a score"); keys.add("?subset")
         if len(base) and not all(_same(a, b, 0) for a, b in zip(s1.tolist(), o4.scores().tolist())): failed.append(f"{hk}: repeating the call changes the scores"); keys.add("?repeat")
+        # an item the model does not know contributes nothing to a history-based score (scorers that use the history items themselves)
+        if hk == "custom-unknown" and name in ("iknn", "iknn-imp", "uknn-imp", "ials") and len(base):
+            try:
+                known_only = ui[np.array([int(i) in Vpos for i in ui.ids()])]
+                ref = call(RecQuery(user_id=u, user_items=known_only), mk(base)).scores().tolist()
+                if not all(_same(a, b) for a, b in zip(s1.tolist(), ref)):
+                    failed.append(f"{hk} user {u}: an unknown item in the history changes the scores"); keys.add("?unknown-history-item")
+            except Exception as e:
+                failed.append(f"{hk} user {u}: scoring with the known part of the history raised {type(e).__name__}"); keys.add("?unknown-history-item")
         # model-mediated: the list call must be the gather / mask / scatter of the per-item (singleton-call) scores
         try:
             ids_all = sorted(set(base)); Vset = set(V)
